@@ -233,7 +233,12 @@ MESSAGES = {
 
 
 def login(ctx, script, pv=757, online=True, token=True, message='text',
-          sentinel=False):
+          sentinel=False, first=None):
+    """`first`: the SAME Connection object already went through a login
+    attempt with that server script (ending in a disconnect) and a user
+    exception handler reconnects from inside the handler (which
+    _handle_exception supports); everything claimed about `script` must hold
+    for the second attempt regardless"""
     import minecraft
     import minecraft.networking.connection as cn
     import minecraft.networking.packets.packet as pk
@@ -273,11 +278,25 @@ def login(ctx, script, pv=757, online=True, token=True, message='text',
     excs, exits = [], []
     servers = []
 
+    vals0 = dict(vals)
+    if first is not None:
+        assert script[-1] == 'S' and 'E' not in first
+        vals0['threshold'] = ctx.int('threshold0', 0, (1 << 31) - 1)
+
     def factory(wld, sock):
-        s = LoginServer(wld, sock, pv, script, vals, zl)
+        if first is not None and sock.index == 0:
+            s = LoginServer(wld, sock, pv, first, vals0, zl)
+        else:
+            s = LoginServer(wld, sock, pv, script, vals, zl)
         s.privkey = privkey
         servers.append(s)
         return s
+    retried = []
+
+    def retry(exc, info):
+        if not retried:
+            retried.append(exc)
+            conn.connect()
     with netenv.patched(pk, compress=zl.compress), \
             netenv.patched(cn, zlib=zl), World(ctx, factory) as wld:
         conn = Connection('host', 25565, username='u', auth_token=auth,
@@ -285,10 +304,24 @@ def login(ctx, script, pv=757, online=True, token=True, message='text',
                           handle_exception=lambda e, i: excs.append(e),
                           handle_exit=lambda: exits.append(1))
         wld.conn = conn
+        if first is not None:
+            conn.register_exception_handler(retry, LoginDisconnect)
         conn.connect()
-        ran = wld.run()
-    srv = servers[0]
-    conds = [z3.BoolVal(srv.problems == []),
+        ran = wld.run(max_threads=4) if first is not None else wld.run()
+    srv = servers[-1]
+    if first is not None:
+        if len(servers) != 2 or len(excs) != 1 or len(ran) != 2:
+            ctx.notes['retry'] = 'servers=%d excs=%r threads=%d' % (
+                len(servers), excs, len(ran))
+            note_key(ctx, 'C10:login:%s>%s:%d' % (first, script, pv))
+            return z3.BoolVal(False)
+        first_ok = z3.BoolVal(isinstance(excs[0], LoginDisconnect) and
+                              servers[0].problems == [])
+        excs = excs[1:]
+        ran = ran[1:]
+    else:
+        first_ok = z3.BoolVal(True)
+    conds = [first_ok,z3.BoolVal(srv.problems == []),
              z3.BoolVal(srv.login_start is not None)]
     W = ctx.W
     encn = refp.Enc(W)
@@ -436,7 +469,13 @@ def login(ctx, script, pv=757, online=True, token=True, message='text',
                 conds.append(z3.BoolVal(isinstance(e, VersionMismatch) and
                                         e.server_version == ver))
         conds.append(z3.BoolVal(wld.sockets[0].closed))
-    note_key(ctx, 'C10:login:%s:%d' % (script, pv))
+    note_key(ctx, 'C10:login:%s%s:%d' % (
+        '' if first is None else first + '>', script, pv))
+    import os
+    if os.environ.get('SYMX_DEBUG') and ctx.mode == 'conc':
+        ctx.notes['conds'] = [str(z3.simplify(c)) for c in conds]
+        ctx.notes['got'] = repr(srv.after)
+        ctx.notes['ran'] = repr(ran)
     return z3.And(*conds)
 
 
@@ -490,6 +529,13 @@ def instances(tier, seed):
                           {'script': 'CES', 'online': True, 'pv': 391},
                           W=192, budget_s=3000, witness_every=9,
                           max_decisions=200000))
+    # the same Connection object, second attempt started by a handler
+    for fst, sc in (('CD', 'S'), ('CD', 'CPS'), ('D', 'CS'), ('PD', 'ES'),
+                    ('CD', 'ECS')):
+        out.append(Instance('login:%s>%s' % (fst, sc), 'login',
+                            {'script': sc, 'first': fst, 'online': False},
+                            W=192, budget_s=1800, witness_every=2,
+                            max_decisions=200000))
     out.append(Instance('login:ES:notoken', 'login',
                         {'script': 'ES', 'token': False}, W=192,
                         max_decisions=200000))
